@@ -29,6 +29,9 @@ func init() {
 			{ID: "C02.R8", Text: "the re-request after a rollback keeps the requested end and the other identities (same rules as C08.R1, C08.R2)", Run: func(c *Ctx, id string) { c08r1(c, id); c08r2(c, id) }},
 			{ID: "C02.R9", Text: "the request is made with the loaded position as it is: openStream passes offsets[vbID] and observers[vbID] of the same key to Client.OpenStream (same rule as C12.R3, open arguments)", Run: c12r3},
 			{ID: "C02.R10", Text: "every tracked position is dumped and every loaded document becomes a position: every loop over a concurrent map runs to completion: the Range callback returns true on every path (frozen exception: markAbsentInstances stops at the error it returns)", Run: rangeComplete("stream.checkpoint)", "stream.stream).Open", "metadata.")},
+			{ID: "C02.R11", Text: "each assigned vBucket is requested: openAllStreams spawns one opener per element of the assigned vBucket list, Add(len)/Done/Wait (same rule as C15.R3)", Run: c15r3},
+			{ID: "C02.R12", Text: "the store that is read and written is the configured one (same rule as C05.R13)", Run: metadataIsTheConfiguredOne},
+			{ID: "C02.R13", Text: "the file backend's state map is a faithful map whose JSON decoding is all-or-nothing (same rule as C04.R9)", Run: wrapperFaithful},
 			{ID: "C02.R6", Text: "read-only wrapper: Save/Clear perform no call and return nil, Load forwards its parameters; Start wraps the metadata whenever Metadata.ReadOnly and under no other condition", Run: c02r6},
 		},
 	})
